@@ -1,5 +1,5 @@
 # replay of a bounded stand-in violation (C06): re-run native/c06_measure.py
 import sys
-print('post-selected heterodyne on mode 1 of 3: gaussian and bosonic conditional states differ (max 0.00456)')
+print('Catstate(1.2, 0.0, p=0.0); BSgate; homodyne(phi=0.70) of q[1] post-selected on 0.8: bosonic leaves q[0] with (<n>, <x>, <x_0.8>, <p>, <x^2>) = [0.6121, 1.3319, 0.9279, 0.0, 3.6641], the conditional state has [0.5793, 1.2991, 0.8356, -0.0969, 3.5986]')
 print('REPLAY-VIOLATION')
 sys.exit(1)
